@@ -31,7 +31,7 @@ pub fn gen_slts_case(g: &mut Gen, _tier: Tier, allow_dummy: bool) -> TrainCase {
     let first_min = if g.bool(0.1) { 0.0 } else { g.grid(4000.0, 9000.0, 10) + tp.length };
     let links = gen_links_for(g, &tp, &o, tp.length + 1500.0, first_min);
     let mode = if g.bool(0.6) { 1 } else { 2 };
-    TrainCase { links, train, mode, trace: vec![], save_interval: Some(1), simulation_days: None }
+    TrainCase { links, train, mode, trace: vec![], save_interval: Some(1), simulation_days: None, init_speed_zero: false }
 }
 
 pub fn speed_case_of(case: &TrainCase) -> SpeedCase {
@@ -290,7 +290,7 @@ fn check_timed(dc: &crate::props::corridor::DispatchCase, cx: &mut Ctx) {
         let spec = &dc.trains[ti].train;
         let route: Vec<usize> = path.iter().map(|p| p.link_idx.idx()).collect();
         let links = route_specs(&dc.net, &b.corridor, &route, spec.train_type);
-        let tc = TrainCase { links, train: spec.clone(), mode: 3, trace: vec![], save_interval: Some(1), simulation_days: None };
+        let tc = TrainCase { links, train: spec.clone(), mode: 3, trace: vec![], save_interval: Some(1), simulation_days: None, init_speed_zero: false };
         let mut sim = b.slts[ti].clone();
         sim.set_save_interval(Some(1));
         let mut run = TrainRun::empty_pub();
